@@ -892,6 +892,9 @@ def standard_views(n, full):
     return out
 
 
+QUICK_FEW = ("rev", "list", "mask", "cols1:", "rev>slice")
+
+
 def exhaustive_views(n, maxlen):
     """every slice / mask / short index list / column trim of an n-row array whose longest row has maxlen elements"""
     bounds = [None] + list(range(0, n + 1)) + [-1, -2]
@@ -970,12 +973,15 @@ def gen_views(tier):
                     for si, lens in enumerate(shapes):
                         if ci > 0 and not thorough and si > 0:
                             continue            # quick: the content on which the call may raise on one shape only
+                        views = standard_views(len(lens), thorough)
+                        if not thorough and (ci > 0 or si > 0):
+                            views = [v for v in views if v[0] in QUICK_FEW]
                         for off in ((0, 1) if thorough and len(letters) > 1 and ci == 0 else (0,)):
                             big = fill(lens, letters, off, lm)
-                            for _, view in standard_views(len(lens), thorough):
+                            for _, view in views:
                                 yield {"k": "retarget_view", "src": src, "dst": dst, "fn": fn, "big": big, "view": view}
                     flat = fill((7,), letters, 0, lm)[0]
-                    for view in FLAT_VIEWS if thorough else FLAT_VIEWS[3:]:
+                    for view in FLAT_VIEWS if thorough else FLAT_VIEWS[3:6]:
                         yield {"k": "retarget_view", "src": src, "dst": dst, "fn": fn, "bigdata": flat, "view": view}
     # (ii) one pair per function x EVERY big array of 2..N rows of length 0..L x every kind of view
     #      (thorough: the additional view kinds up to 4 rows only)
